@@ -40,6 +40,38 @@ def model_request(t):
     return q
 
 
+def py_model_request(t):
+    """the request for the models of the numpy / dict_wh paths THEMSELVES (driver ops wh_numpy / dict_wh,
+    lean/PyndlModel/WHPy.lean `whNumpyModel` / `dictWhModel`): the calls one by one (`pieces`), each
+    continuing from the previous result, as op_wh runs them"""
+    pieces = [list(p) for p in (t.get('pieces') or [t['events']])]
+    if t.get('events_form', 'path') == 'path':
+        # the text format reads an empty outcome field back as the outcome named '' (C07)
+        pieces = [[[list(c), list(o) if o else ['']] for c, o in p] for p in pieces]
+    q = {'op': 'wh_numpy' if t['method'] == 'numpy' else 'dict_wh', 'pieces': pieces, 'policy': t['policy'],
+         'eta': t['eta'], 'cue_vectors': t['cue_vectors'], 'outcome_vectors': t['outcome_vectors']}
+    if t.get('init') is not None:
+        q['init'] = t['init']
+    if t['method'] == 'dict_wh':
+        q['make_data_array'] = bool(t.get('make_data_array', False))
+    return q
+
+
+def compare_py(impl, model):
+    """compare() plus what only the models of the Python paths say: which call of a chain failed, and the type
+    dict_wh returns"""
+    d = compare(impl, model)
+    if d:
+        return d
+    if 'err' in model:
+        if impl.get('failed_piece') != model.get('failed_piece'):
+            return 'model: call %r of the chain raises, implementation: call %r' % (model.get('failed_piece'), impl.get('failed_piece'))
+        return None
+    if model.get('result_type') is not None and impl.get('result_type') != model['result_type']:
+        return 'result type %r, model %r' % (impl.get('result_type'), model['result_type'])
+    return None
+
+
 def compare(impl, model):
     if 'err' in model:
         if impl.get('err') == model['err']:
